@@ -22,7 +22,9 @@ EVENT_SRC = ["event/loop.cpp", "event/common_loop.cpp", "event/common_loop_timer
 SRC = vlib.BASE_SRC + EVENT_SRC + ["coroutine/scheduler.cpp"]
 DEFS = vlib.BASE_DEFS + ["HAVE_EPOLL=1", "HAVE_SELECT=1"]
 SPEC = "Coroutine"
-INV_ACTIONS = ["MCreate", "MPass", "MCleanup", "SchedBegin", "SchedPop", "CleanupRound", "CleanupNext", "REnd", "RCall"]
+INV_ACTIONS = ["MCreate", "MResume", "MCancel", "MPass", "MCleanup", "MFinish", "SchedBegin", "SchedPop", "PassEnd", "CleanupRound",
+               "CleanupNext", "REnd", "RCall", "RWait", "RYield", "RRecv", "RSend", "RLock", "RUnlock", "RAcq", "RRel", "RBWait", "RBPost",
+               "RCAdd", "RCWait", "RCPost", "RJoin", "RCreate", "RCancel"]
 
 
 def op(o, x=0, y=0):
